@@ -53,6 +53,8 @@ def plan(tier, seed):
     specs.append({"name": "amap", "kind": "amap", "shard": 20, "histories": 150 if q else 2500, "timeout": 7000})
     for i in range(4):
         specs.append({"name": "dict%02d" % i, "kind": "dict", "shard": 30 + i, "runs": 12 if q else 120, "timeout": 7000})
+    for i in range(2):
+        specs.append({"name": "refit%02d" % i, "kind": "refit", "shard": 60 + i, "runs": 12 if q else 120, "timeout": 7000})
     for i in range(2 if q else 6):
         specs.append({"name": "cli%02d" % i, "kind": "cli", "shard": 50 + i, "timeout": 7000})
     if not q:
@@ -67,7 +69,8 @@ def required(tier):
             "nojit_misses": 100, "nojit_pedigree_returns": 100, "nojit_calling_returns": 100, "nojit_structural_returns": 50,
             "amap_ops": 5000, "amap_flushes": 20, "amap_hits": 1000, "ped_cache_entries_checked": 300,
             "call_cache_entries_checked": 200, "ped_unequal_read_runs": 10, "tempered_runs": 5, "call_cache_high_ploidy_runs": 3,
-            "cli_threshold_settings_compared": 12, "cli_records_compared": 60, "cli_tempered_settings": 2}
+            "cli_threshold_settings_compared": 12, "cli_records_compared": 60, "cli_tempered_settings": 2,
+            "refit_assemble_compared": 15, "refit_pedigree_compared": 15, "refit_llk_cells_checked": 1000}
 
 
 # ---------------------------------------------------------------------------
@@ -612,7 +615,81 @@ def run_cli(tier, seed, spec, col):
     shutil.rmtree(root, ignore_errors=True)
 
 
+def run_refit(tier, seed, spec, col):
+    """A sampler OBJECT fitted twice, on different reads: whatever it caches may not outlive a fit.  The second fit of one
+    DenovoMCMC / PedigreeCallingMCMC object must be bit-identical to the fit of a fresh object with the same seed, and the
+    assemble trace's log-likelihoods must be those of the second read set."""
+    from mchap.assemble.mcmc import DenovoMCMC
+    from mchap.pedigree.classes import PedigreeCallingMCMC
+
+    monitors.ensure_compiled()
+    for r in range(spec["runs"]):
+        rng = gen.rng_for(seed, ID, spec["shard"], r)
+        # ---- assemble
+        I = make_instance(rng, small=True)
+        J = make_instance(rng, small=True)
+        n_alleles = [int(x) for x in I["n_alleles"]]
+        truth = gen.gen_genotype(rng, I["ploidy"], I["n_alleles"], dup_rate=0.3)
+        n2 = int(rng.integers(3, 12))
+        reads2 = gen.gen_reads_from_haps(rng, truth, n2, I["n_alleles"], n_nucl=I["reads"].shape[2], gap_rate=0.2, err=0.01, flip=0.05)
+        counts2 = gen.gen_counts(rng, n2)
+        for thr in (0, -1):
+            s0 = int(rng.integers(0, 2**31 - 1))
+            kw = dict(ploidy=I["ploidy"], n_alleles=n_alleles, inbreeding=I["F"], steps=40, chains=2, fix_homozygous=1.5, random_seed=s0,
+                      temperatures=tuple(float(t) for t in I["temps"]), llk_cache_threshold=thr)
+            case = {"kind": "refit", "sampler": "DenovoMCMC", "seed": seed, "shard": spec["shard"], "run": r, "cache_threshold": thr}
+            col.case("REFIT-A|%d|%d|%d" % (spec["shard"], r, thr), nontrivial=thr == 0)
+            try:
+                m = DenovoMCMC(**kw)
+                m.fit(I["reads"], read_counts=I["counts"])
+                t2 = m.fit(reads2, read_counts=counts2)
+                fresh = DenovoMCMC(**kw).fit(reads2, read_counts=counts2)
+            except AssertionError:
+                col.count("fits_aborted_by_invalid_initial_allele")  # DESIGN.md 8.6
+                continue
+            col.count("refit_assemble_compared")
+            if not (np.array_equal(np.asarray(t2.genotypes), np.asarray(fresh.genotypes)) and np.array_equal(np.asarray(t2.llks), np.asarray(fresh.llks), equal_nan=True)):
+                col.violation("refit-depends-on-earlier-fit", "second fit() of one DenovoMCMC object (other reads, cache threshold %d) differs from a fresh object with the same seed" % thr, case)
+                continue
+            orc = Oracle(reads2, counts2)
+            g2, l2 = np.asarray(t2.genotypes), np.asarray(t2.llks, dtype=float)
+            for ch in range(g2.shape[0]):
+                for st in range(0, g2.shape[1], 3):
+                    col.count("refit_llk_cells_checked")
+                    if not llk_close(float(l2[ch, st]), orc.llk(g2[ch, st])):
+                        col.violation("carried-likelihood-differs-from-recomputed", "second fit() of one DenovoMCMC object: chain %d step %d carries %.10g, the reads of this fit give %.10g"
+                                      % (ch, st, float(l2[ch, st]), orc.llk(g2[ch, st])), case)
+                        break
+        # ---- pedigree
+        P = pedgen.make_pedigree(rng, None)
+        Q = pedgen.make_pedigree(rng, None)
+        reads_b = P["reads"].copy()
+        counts_b = P["counts"].copy()
+        # second data set: the same pedigree, reads of the samples rotated (so every sample gets other reads)
+        reads_b = np.roll(reads_b, 1, axis=0)
+        counts_b = np.roll(counts_b, 1, axis=0)
+        s0 = int(rng.integers(0, 2**31 - 1))
+        kw = dict(sample_ploidy=P["ploidy"], sample_inbreeding=np.zeros(len(P["ploidy"])), sample_parents=P["parents"], gamete_tau=P["tau"], gamete_lambda=P["lam"],
+                  gamete_error=np.clip(P["err"], 0.01, 1.0), haplotypes=P["haps"], frequencies=P["freqs"], steps=30, annealing=10, chains=2, random_seed=s0)
+        case = {"kind": "refit", "sampler": "PedigreeCallingMCMC", "seed": seed, "shard": spec["shard"], "run": r, "pedigree": P["name"]}
+        col.case("REFIT-P|%d|%d" % (spec["shard"], r), nontrivial=True)
+        try:
+            m = PedigreeCallingMCMC(**kw)
+            m.fit(P["reads"], P["counts"])
+            t2 = m.fit(reads_b, counts_b)
+            fresh = PedigreeCallingMCMC(**kw).fit(reads_b, counts_b)
+        except Exception as ex:  # noqa: BLE001
+            col.count("refit_pedigree_raised")
+            col.add_to_set("refit_pedigree_exceptions", "%s: %s" % (type(ex).__name__, str(ex)[:100]))
+            continue
+        col.count("refit_pedigree_compared")
+        if not np.array_equal(np.asarray(t2.genotypes), np.asarray(fresh.genotypes)):
+            col.violation("refit-depends-on-earlier-fit", "second fit() of one PedigreeCallingMCMC object (other reads) differs from a fresh object with the same seed [%s]" % P["name"], case)
+
+
 def run_shard(tier, seed, spec, col):
+    if spec["kind"] == "refit":
+        return run_refit(tier, seed, spec, col)
     {"trace": run_trace, "nojit": run_nojit, "amap": run_amap, "dict": run_dict, "cli": run_cli}[spec["kind"]](tier, seed, spec, col)
 
 
